@@ -27,6 +27,285 @@ class Other:
         return hash((self.text, self.truthy))
 
 
+# ---------------------------------------------------------------- natives of unusual but legitimate TYPES
+# (extension round h15).  Every one is described in the case JSON by a tagged dict; `exotic_to_nat` /
+# `exotic_from_nat` are exact inverses.  None of the pools used by `random_native` contains them (C18 / C20 draw
+# from it and their models know the plain natives only): `random_exotic` is a separate stream.
+
+class TextSub(str):
+    """A str SUBCLASS with its own __str__ (shows something else than its characters) and a strip() that
+    keeps the class (as markupsafe.Markup does).  It IS text: isinstance(x, str)."""
+
+    def __new__(cls, s, shown="<TextSub>"):
+        o = str.__new__(cls, s)
+        o.shown = shown
+        return o
+
+    def __str__(self):
+        return self.shown
+
+    def strip(self, chars=None):
+        return TextSub(str.strip(self, chars), self.shown)
+
+
+class IntSub(int):
+    """An int subclass with its own __str__ (an ORM id, a unit-carrying count)."""
+
+    def __new__(cls, v, shown="<IntSub>"):
+        o = int.__new__(cls, v)
+        o.shown = shown
+        return o
+
+    def __str__(self):
+        return self.shown
+
+
+class FloatSub(float):
+    def __new__(cls, v, shown="<FloatSub>"):
+        o = float.__new__(cls, v)
+        o.shown = shown
+        return o
+
+    def __str__(self):
+        return self.shown
+
+
+class DecSub(decimal.Decimal):
+    def __new__(cls, v, shown="<DecSub>"):
+        o = decimal.Decimal.__new__(cls, v)
+        o.shown = shown
+        return o
+
+    def __str__(self):
+        return self.shown
+
+
+class DateSub(datetime.date):
+    def __new__(cls, y, m, d, shown="<DateSub>"):
+        o = datetime.date.__new__(cls, y, m, d)
+        o.shown = shown
+        return o
+
+    def __str__(self):
+        return self.shown
+
+
+_ENUMS = {}
+
+
+def int_enum(v):
+    """The member of an IntEnum class whose value is v (one cached class per value)."""
+    import enum
+    if v not in _ENUMS:
+        _ENUMS[v] = enum.IntEnum("Level", {"MEMBER": v})
+    return _ENUMS[v].MEMBER
+
+
+def is_exotic(v):
+    import collections
+    import enum
+    import fractions
+    return (type(v) in (TextSub, IntSub, FloatSub, DecSub, DateSub, bytes, bytearray, collections.UserString, fractions.Fraction)
+            or isinstance(v, enum.IntEnum)
+            or (type(v) is datetime.time and v.tzinfo is not None))
+
+
+def exotic_to_nat(v):
+    import collections
+    import enum
+    import fractions
+    if type(v) is collections.UserString:
+        return {"t": "userstring", "s": v.data}
+    if type(v) is TextSub:
+        return {"t": "strsub", "s": str.__str__(v), "shown": v.shown}
+    if type(v) is IntSub:
+        return {"t": "intsub", "v": hex(int(v)), "shown": v.shown}
+    if isinstance(v, enum.IntEnum):
+        return {"t": "intenum", "v": hex(int(v))}
+    if type(v) is FloatSub:
+        return {"t": "floatsub", "id": "f:" + struct.pack(">d", float(v)).hex(), "shown": v.shown}
+    if type(v) is DecSub:
+        return {"t": "decsub", "s": decimal.Decimal.__str__(v), "shown": v.shown}
+    if type(v) is fractions.Fraction:
+        return {"t": "fraction", "n": hex(v.numerator), "d": hex(v.denominator)}
+    if type(v) is DateSub:
+        return {"t": "datesub", "v": [v.year, v.month, v.day], "shown": v.shown}
+    if type(v) is datetime.time:
+        return {"t": "timetz", "v": [v.hour, v.minute, v.second, v.microsecond],
+                "off": int(v.utcoffset().total_seconds() // 60)}
+    if type(v) is bytes:
+        return {"t": "bytes", "b": v.decode("latin-1")}
+    if type(v) is bytearray:
+        return {"t": "bytearray", "b": bytes(v).decode("latin-1")}
+    raise AssertionError(type(v))
+
+
+EXOTIC_TAGS = ("userstring", "strsub", "intsub", "intenum", "floatsub", "decsub", "fraction", "datesub", "timetz", "bytes",
+               "bytearray")
+
+
+def exotic_from_nat(j):
+    import collections
+    import fractions
+    t = j["t"]
+    if t == "userstring":
+        return collections.UserString(j["s"])
+    if t == "strsub":
+        return TextSub(j["s"], j["shown"])
+    if t == "intsub":
+        return IntSub(int(j["v"], 16), j["shown"])
+    if t == "intenum":
+        return int_enum(int(j["v"], 16))
+    if t == "floatsub":
+        return FloatSub(struct.unpack(">d", bytes.fromhex(j["id"][2:]))[0], j["shown"])
+    if t == "decsub":
+        return DecSub(j["s"], j["shown"])
+    if t == "fraction":
+        return fractions.Fraction(int(j["n"], 16), int(j["d"], 16))
+    if t == "datesub":
+        return DateSub(*j["v"], shown=j["shown"])
+    if t == "timetz":
+        return datetime.time(*j["v"], tzinfo=datetime.timezone(datetime.timedelta(minutes=j["off"])))
+    if t == "bytes":
+        return j["b"].encode("latin-1")
+    if t == "bytearray":
+        return bytearray(j["b"].encode("latin-1"))
+    raise AssertionError(t)
+
+
+def unsub(v):
+    """The same value without the subclass identity of v (what `==` of the base type sees).  Values that are
+    not subclass instances of a plain native (UserString, Fraction, bytes, an aware time) stay as they are."""
+    import enum
+    if type(v) is TextSub:
+        return str.__str__(v)
+    if type(v) is IntSub or isinstance(v, enum.IntEnum):
+        return int(v)
+    if type(v) is FloatSub:
+        return float(v)
+    if type(v) is DecSub:
+        return decimal.Decimal(decimal.Decimal.__str__(v))
+    if type(v) is DateSub:
+        return datetime.date(v.year, v.month, v.day)
+    return v
+
+
+def model_view(v):
+    """What the Lean scalar model can hold of a STORED value / raw (its natives are the plain ones): the
+    subclass identity and a tzinfo are dropped; text-likes and other objects are seen through str() / bool()."""
+    v = unsub(v)
+    if type(v) is datetime.time and v.tzinfo is not None:
+        return v.replace(tzinfo=None)
+    if is_exotic(v):
+        return Other(str(v), bool(v))
+    return v
+
+
+def projections(kind, x):
+    """Candidate plain natives standing for the exotic x in front of a scalar of this kind: what the kind's
+    documented treatment looks at (type identity, then str(x) / int(x) / float(x) / bool(x) / the fields of a
+    temporal).  The caller keeps the first candidate whose DOCUMENTED outcome equals that of x (c04.ref_set);
+    if none does, the case runs through the real code and the oracle only."""
+    import collections
+    import fractions
+    bk = base_kind(kind)["k"]
+    cands = []
+    if type(x) is TextSub:
+        cands.append(str.__str__(x))
+    elif bk in ("integer", "float", "decimal"):
+        if type(x) is collections.UserString and bk != "decimal":
+            cands.append(x.data)
+        elif type(x) in (bytes, bytearray) and bk != "decimal":
+            cands.append(bytes(x).decode("latin-1"))
+        elif type(x) is fractions.Fraction:
+            if bk == "integer":
+                cands.append(int(x))
+            elif bk == "float":
+                cands.append(float(x))
+        elif unsub(x) is not x:
+            cands.append(unsub(x))
+    elif bk in ("date", "time", "datetime"):
+        ty = {"date": datetime.date, "time": datetime.time, "datetime": datetime.datetime}[bk]
+        if isinstance(x, ty):
+            cands.append(model_view(x))
+    try:
+        cands.append(Other(str(x), bool(x)))
+    except Exception:  # noqa: BLE001
+        pass
+    return cands
+
+
+PADS = ["", "", " ", "  ", "\t", "\n", " ", "　", " ", "\x1c", "\x85", " "]
+
+
+SAFE_PADS = [p for p in PADS if p not in ("\x85", "\u2028", "\u2029")]      # for checks whose driver output carries raw text lines
+
+
+def random_exotic(rng, kind=None, pads=None):
+    """A native of an unusual but legitimate type, mostly one that suits the kind (any when kind is None):
+    text-likes for every kind (their text suiting the kind), numeric subclasses for numbers / booleans / strings,
+    temporal subclasses for temporals; often padded with ASCII / non-ASCII whitespace."""
+    import collections
+    import fractions
+    bk = base_kind(kind)["k"] if kind is not None else rng.choice(["string", "integer", "float", "decimal", "boolean", "date",
+                                                                     "time", "datetime"])
+    text = {
+        "string": ["Biff", "a", "b", "x", "", "a b", "1"],
+        "integer": ["12", "-5", "0", "7", "42", "1_0", "+3", "x"],
+        "float": ["1.5", "-2.25", "1e3", "nan", "7", "x"],
+        "decimal": ["1.50", "-2.25", "1E+3", "NaN", "7", "x"],
+        "boolean": ["on", "off", "1", "", "0", "true", "yes", "no", "x"],
+        "boolean_default": ["on", "off", "1", "", "0", "true", "False", "x"],
+        "date": ["2020-01-02", "2021-02-29", "1999-12-31"],
+        "time": ["03:04:05", "23:59:59", "24:00:00"],
+        "datetime": ["2020-01-02 03:04:05", "1999-12-31 23:59:59"],
+    }[bk]
+    pads = pads or PADS
+    _padded = lambda rng, s: rng.choice(pads) + s + rng.choice(pads)
+    shown = lambda base: _padded(rng, rng.choice([base, base, "shown", "<obj>", ""]))
+    r = rng.random()
+    if r < 0.36:
+        s = _padded(rng, rng.choice(text))
+        q = rng.random()
+        if q < 0.35:
+            return collections.UserString(s)
+        if q < 0.6:
+            return Other(s, rng.random() < 0.8)
+        if q < 0.85:
+            return TextSub(s, shown(s))
+        try:
+            b = s.encode("ascii")
+        except UnicodeEncodeError:
+            b = s.strip().encode("ascii", "replace")
+        return b if rng.random() < 0.6 else bytearray(b)
+    if bk in ("date", "time", "datetime") and r < 0.8:
+        y, mo, d = rng.choice([(2020, 1, 2), (1, 1, 1), (9999, 12, 31), (2020, 2, 29)])
+        q = rng.random()
+        if q < 0.3:
+            return DateSub(y, mo, d, shown("%04d-%02d-%02d" % (y, mo, d)))
+        if q < 0.55:
+            return datetime.time(rng.choice([0, 1, 23]), rng.choice([0, 2, 59]), rng.choice([0, 3, 59]), rng.choice([0, 0, 5]),
+                                 tzinfo=datetime.timezone(datetime.timedelta(minutes=rng.choice([0, 60, -330, 765]))))
+        if q < 0.8:
+            return datetime.datetime(y, mo, d, rng.choice([0, 3]), rng.choice([0, 4]), rng.choice([0, 5]), rng.choice([0, 0, 6]))
+        return datetime.date(y, mo, d)
+    v = rng.choice([0, 1, 2, 7, 42, -5, 3, 10 ** 6, -1])
+    q = rng.random()
+    if q < 0.12:
+        return rng.choice([True, False])
+    if q < 0.34:
+        return IntSub(v, shown(str(v)))
+    if q < 0.5:
+        return int_enum(v)
+    if q < 0.66:
+        f = rng.choice([0.0, 1.5, -2.25, 3.7, 7.0, float("nan"), float("inf"), 1e22])
+        return FloatSub(f, shown(repr(f)))
+    if q < 0.82:
+        dd = rng.choice(["0", "1.50", "-2.25", "7", "NaN", "1E+3", "Infinity"])
+        return DecSub(dd, shown(dd))
+    return fractions.Fraction(rng.choice([0, 1, 7, -7, 3, 22]), rng.choice([1, 2, 3, 7]))
+
+
 # ---------------------------------------------------------------- natives <-> JSON
 
 def tok_of(x):
@@ -55,6 +334,8 @@ def py_to_nat(v, full=True):
     the model prints)."""
     if v is None:
         return None
+    if is_exotic(v):
+        return exotic_to_nat(v)
     if isinstance(v, bool):
         return {"t": "bool", "v": v}
     if isinstance(v, int):
@@ -111,6 +392,8 @@ def nat_to_py(j):
         return decimal.Decimal(j["tok"]["id"][2:])
     if t == "other":
         return Other(j["v"], j["truthy"])
+    if t in EXOTIC_TAGS:
+        return exotic_from_nat(j)
     raise AssertionError(t)
 
 
